@@ -10,7 +10,7 @@
 use serde::{Deserialize, Serialize};
 use simcore::rng::Rng;
 
-const ATOMS: [&str; 10] = ["a", "b", "c", "Alfred", "Edward", "red apple", "x1", "harold_2", "north", "pie"];
+const ATOMS: [&str; 12] = ["a", "b", "c", "Alfred", "Edward", "red apple", "x1", "harold_2", "north", "pie", "café", "Æthelstan"];
 const PREDS: [&str; 8] = ["f", "g", "parent", "loves", "edge", "q", "size", "kind"];
 const VARS: [&str; 5] = ["$X", "$Y", "$Z", "$Who", "$T"];
 
@@ -231,7 +231,7 @@ pub fn gen_layout(rng: &mut Rng) -> LayoutOpts {
 
 fn comment(rng: &mut Rng) -> String {
     let lead = rng.pick(&["#", "%", "//", "# ", "% ", "// "]);
-    let body = rng.pick(&["note", "a, b. (c", "TODO: fix] this", "50% of [it", "see f(x).", "", "x = y + 1"]);
+    let body = rng.pick(&["note", "a, b. (c", "TODO: fix] this", "50% of [it", "see f(x).", "", "x = y + 1", "größe — 日本語", "naïve(x)."]);
     format!("{}{}", lead, body)
 }
 
